@@ -101,20 +101,24 @@ Lemma calls_of_sends : forall l, calls_of (map Send l) = [].
 Proof. induction l; [reflexivity|]. cbn. exact IHl. Qed.
 Lemma sends_of_sends : forall l, sends_of (map Send l) = l.
 Proof. induction l; [reflexivity|]. cbn. f_equal. exact IHl. Qed.
+Lemma calls_of_rebinds : forall l, calls_of (map Rebind l) = [].
+Proof. induction l; [reflexivity|]. cbn. exact IHl. Qed.
+Lemma sends_of_rebinds : forall l, sends_of (map Rebind l) = [].
+Proof. induction l; [reflexivity|]. cbn. exact IHl. Qed.
 
 Lemma calls_of_acts : forall l, calls_of (acts_of_calls l) = map fst l.
 Proof.
   induction l as [|[c h] l IH]; [reflexivity|].
   unfold acts_of_calls in *. cbn [flat_map]. rewrite calls_of_app. cbn [fst snd]. cbn [map].
-  change (Call c :: map Send (h_sends h)) with ([Call c] ++ map Send (h_sends h)).
-  rewrite calls_of_app, calls_of_sends. cbn. f_equal. exact IH.
+  change (Call c :: map Send (fb_items h) ++ map Rebind (h_binds h)) with ([Call c] ++ map Send (fb_items h) ++ map Rebind (h_binds h)).
+  rewrite !calls_of_app, calls_of_sends, calls_of_rebinds. cbn. f_equal. exact IH.
 Qed.
-Lemma sends_of_acts : forall l, sends_of (acts_of_calls l) = flat_map (fun ch => h_sends (snd ch)) l.
+Lemma sends_of_acts : forall l, sends_of (acts_of_calls l) = flat_map (fun ch => fb_items (snd ch)) l.
 Proof.
   induction l as [|[c h] l IH]; [reflexivity|].
   unfold acts_of_calls in *. cbn [flat_map]. rewrite sends_of_app. cbn [fst snd].
-  change (Call c :: map Send (h_sends h)) with ([Call c] ++ map Send (h_sends h)).
-  rewrite sends_of_app, sends_of_sends. cbn. f_equal. exact IH.
+  change (Call c :: map Send (fb_items h) ++ map Rebind (h_binds h)) with ([Call c] ++ map Send (fb_items h) ++ map Rebind (h_binds h)).
+  rewrite !sends_of_app, sends_of_sends, sends_of_rebinds. cbn. rewrite app_nil_r. f_equal. exact IH.
 Qed.
 
 Lemma map_fst_flat_map : forall {A B C} (f : A -> list (B * C)) l,
@@ -125,96 +129,157 @@ Lemma flat_map_flat_map : forall {A B C} (f : A -> list B) (g : B -> list C) l,
   flat_map g (flat_map f l) = flat_map (fun x => flat_map g (f x)) l.
 Proof. induction l; [reflexivity|]. cbn. rewrite flat_map_app. f_equal. exact IHl. Qed.
 
-(* dispatch of one message = what the spec demands, for the registrations in force *)
-Lemma dispatch_meets_demands : forall b st m,
-  calls_of (fst (dispatch b st m)) = fst (msg_demands (in_force (rev b)) m) /\
-  sends_of (fst (dispatch b st m)) = snd (msg_demands (in_force (rev b)) m).
+Lemma calls_of_event_force : forall b e, calls_of_event b e = event_calls (in_force (rev b)) e.
+Proof. intros. rewrite calls_of_event_spec. apply event_calls_ext. intros. symmetry. apply in_force_rev. Qed.
+
+Lemma rev_apply_binds : forall b rs, rev (apply_binds b rs) = rev b ++ rs.
+Proof. intros. unfold apply_binds. rewrite rev_app_distr, rev_involutive. reflexivity. Qed.
+
+Lemma dispatch_events_cons : forall b e r,
+  dispatch_events b (e :: r) =
+  (acts_of_calls (calls_of_event b e) ++ fst (dispatch_events (apply_binds b (binds_of_calls (calls_of_event b e))) r),
+   snd (dispatch_events (apply_binds b (binds_of_calls (calls_of_event b e))) r)).
+Proof. intros. cbn [dispatch_events]. destruct (dispatch_events _ r). reflexivity. Qed.
+
+Lemma events_demands_cons : forall regs e r,
+  events_demands regs (e :: r) =
+  (let chs := event_calls (in_force regs) e in
+   let rest := events_demands (regs ++ flat_map (fun ch => h_binds (snd ch)) chs) r in
+   (map fst chs ++ fst (fst rest), flat_map (fun ch => fb_items (snd ch)) chs ++ snd (fst rest), snd rest)).
+Proof. intros. cbn [events_demands]. destruct (events_demands _ r) as [[c s] regs']. reflexivity. Qed.
+
+(* the events of a message: invocations, sends and the maps afterwards are what the spec demands *)
+Lemma dispatch_events_meets : forall evs b,
+  calls_of (fst (dispatch_events b evs)) = fst (fst (events_demands (rev b) evs)) /\
+  sends_of (fst (dispatch_events b evs)) = snd (fst (events_demands (rev b) evs)) /\
+  rev (snd (dispatch_events b evs)) = snd (events_demands (rev b) evs).
 Proof.
-  intros. unfold dispatch, msg_demands. cbn [fst snd].
-  assert (E : flat_map (event_calls (in_force (rev b))) (m_events m) = flat_map (calls_of_event b) (m_events m)).
-  { apply flat_map_ext. intros e. rewrite calls_of_event_spec. apply event_calls_ext. intros. apply in_force_rev. }
-  rewrite E. split.
-  - rewrite calls_of_app. replace (calls_of (if m_flow m =? 1 then [Send TAck] else [])) with (@nil callrec) by (destruct (m_flow m =? 1); reflexivity).
-    cbn [app]. rewrite map_fst_flat_map. unfold calls_of at 1. rewrite flat_map_flat_map.
-    apply flat_map_ext. intros e. apply calls_of_acts.
-  - rewrite sends_of_app. f_equal; [destruct (m_flow m =? 1); reflexivity|].
-    unfold sends_of at 1. rewrite !flat_map_flat_map. apply flat_map_ext. intros e. apply sends_of_acts.
+  induction evs as [|e r IH]; intros b; [cbn; auto|].
+  rewrite dispatch_events_cons, events_demands_cons. cbn zeta. cbn [fst snd].
+  rewrite <- calls_of_event_force.
+  specialize (IH (apply_binds b (binds_of_calls (calls_of_event b e)))).
+  rewrite rev_apply_binds in IH. unfold binds_of_calls in *. destruct IH as (H1 & H2 & H3).
+  rewrite calls_of_app, sends_of_app, calls_of_acts, sends_of_acts, H1, H2, H3. auto.
 Qed.
 
-(* the statement in the property's words *)
-Lemma dispatch_exactly_once : forall b st m,
-  calls_of (fst (dispatch b st m)) =
-  flat_map (fun e => map fst (event_calls (in_force (rev b)) e)) (m_events m).
+Lemma dispatch_meets_demands : forall b st m,
+  calls_of (fst (fst (dispatch b st m))) = fst (fst (msg_demands (rev b) m)) /\
+  sends_of (fst (fst (dispatch b st m))) = snd (fst (msg_demands (rev b) m)) /\
+  rev (snd (dispatch b st m)) = snd (msg_demands (rev b) m) /\
+  snd (fst (dispatch b st m)) = upd_state st m.
 Proof.
-  intros. rewrite (proj1 (dispatch_meets_demands b st m)). unfold msg_demands. cbn [fst]. apply map_fst_flat_map.
+  intros. unfold dispatch, msg_demands.
+  pose proof (dispatch_events_meets (m_events m) b) as (H1 & H2 & H3).
+  destruct (dispatch_events b (m_events m)) as [a b'].
+  destruct (events_demands (rev b) (m_events m)) as [[c s] regs'].
+  cbn [fst snd] in *. rewrite calls_of_app, sends_of_app, H1, H2.
+  destruct (m_flow m =? 1); cbn; auto.
 Qed.
+
+(* the statement in the property's words: the invocations for a message are, event by event in order, those
+   [event_calls] demands under the registrations in force at that event (the ones before the message plus
+   the ones made by the handlers of the earlier events) *)
+Lemma dispatch_exactly_once : forall b st m,
+  calls_of (fst (fst (dispatch b st m))) = fst (fst (events_demands (rev b) (m_events m))).
+Proof.
+  intros. rewrite (proj1 (dispatch_meets_demands b st m)). unfold msg_demands.
+  destruct (events_demands (rev b) (m_events m)) as [[c s] regs']. reflexivity.
+Qed.
+
+(* handlers that register nothing themselves: the maps are the same for every event of the message *)
+Definition no_rebind (who : kind -> Z -> option handler) : Prop := forall k id h, who k id = Some h -> h_binds h = [].
+
+Lemma event_calls_no_rebind : forall who e, no_rebind who -> flat_map (fun ch => h_binds (snd ch)) (event_calls who e) = [].
+Proof.
+  intros who e H. unfold event_calls. induction all_kinds as [|k ks IH]; [reflexivity|].
+  cbn [flat_map]. rewrite flat_map_app, IH, app_nil_r.
+  destruct (who k (e_id e)) as [h|] eqn:W; [|reflexivity].
+  destruct (expected_call k h e); [|reflexivity]. cbn [flat_map snd]. rewrite (H _ _ _ W). reflexivity.
+Qed.
+
+Lemma events_demands_static : forall regs evs, no_rebind (in_force regs) ->
+  events_demands regs evs =
+  (flat_map (fun e => map fst (event_calls (in_force regs) e)) evs,
+   flat_map (fun e => flat_map (fun ch => fb_items (snd ch)) (event_calls (in_force regs) e)) evs, regs).
+Proof.
+  intros regs evs H. induction evs as [|e r IH]; [reflexivity|].
+  cbn [events_demands flat_map]. rewrite event_calls_no_rebind by assumption. rewrite app_nil_r, IH. reflexivity.
+Qed.
+
+Lemma dispatch_exactly_once_static : forall b st m, no_rebind (in_force (rev b)) ->
+  calls_of (fst (fst (dispatch b st m))) = flat_map (fun e => map fst (event_calls (in_force (rev b)) e)) (m_events m).
+Proof. intros. rewrite dispatch_exactly_once, events_demands_static by assumption. reflexivity. Qed.
 
 (* ------------------------------------------------------------------ ping -> exactly one ack *)
-Definition no_ack_handlers (who : kind -> Z -> option handler) : Prop :=
-  forall k id h, who k id = Some h -> count_acks (h_sends h) = 0%nat.
-
 Lemma count_acks_app : forall a b, count_acks (a ++ b) = (count_acks a + count_acks b)%nat.
 Proof. intros. unfold count_acks. rewrite filter_app, app_length. reflexivity. Qed.
 
-Lemma event_calls_no_ack : forall who e, no_ack_handlers who ->
-  count_acks (flat_map (fun ch => h_sends (snd ch)) (event_calls who e)) = 0%nat.
+Lemma count_acks_fb : forall h, count_acks (fb_items h) = 0%nat.
+Proof. intros. unfold fb_items. induction (h_sends h); [reflexivity|]. cbn. exact IHl. Qed.
+
+Lemma count_acks_fbs : forall (l : list (callrec * handler)), count_acks (flat_map (fun ch => fb_items (snd ch)) l) = 0%nat.
+Proof. induction l; [reflexivity|]. cbn [flat_map]. rewrite count_acks_app, count_acks_fb, IHl. reflexivity. Qed.
+
+Lemma events_demands_acks : forall evs regs, count_acks (snd (fst (events_demands regs evs))) = 0%nat.
 Proof.
-  intros who e H. unfold event_calls.
-  induction all_kinds as [|k ks IH]; [reflexivity|].
-  cbn [flat_map]. rewrite flat_map_app, count_acks_app, IH.
-  destruct (who k (e_id e)) as [h|] eqn:W; [|reflexivity].
-  destruct (expected_call k h e); [|reflexivity]. cbn [flat_map snd]. rewrite app_nil_r. rewrite (H _ _ _ W). reflexivity.
+  induction evs as [|e r IH]; intros; [reflexivity|].
+  cbn [events_demands]. specialize (IH (regs ++ flat_map (fun ch => h_binds (snd ch)) (event_calls (in_force regs) e))).
+  destruct (events_demands _ r) as [[c s] regs']. cbn [fst snd] in *. rewrite count_acks_app, count_acks_fbs, IH. reflexivity.
 Qed.
 
-Lemma msg_demands_acks : forall who m, no_ack_handlers who ->
-  count_acks (snd (msg_demands who m)) = if m_flow m =? 1 then 1%nat else 0%nat.
+Lemma msg_demands_acks : forall regs m,
+  count_acks (snd (fst (msg_demands regs m))) = if m_flow m =? 1 then 1%nat else 0%nat.
 Proof.
-  intros who m H. unfold msg_demands. cbn [snd]. rewrite count_acks_app.
-  assert (Z0 : count_acks (flat_map (fun ch => h_sends (snd ch)) (flat_map (event_calls who) (m_events m))) = 0%nat).
-  { induction (m_events m) as [|e es IH]; [reflexivity|]. cbn [flat_map]. rewrite flat_map_app, count_acks_app, IH.
-    rewrite event_calls_no_ack by assumption. reflexivity. }
-  rewrite Z0. destruct (m_flow m =? 1); reflexivity.
+  intros. unfold msg_demands. pose proof (events_demands_acks (m_events m) regs) as H.
+  destruct (events_demands regs (m_events m)) as [[c s] regs']. cbn [fst snd] in *.
+  rewrite count_acks_app, H. destruct (m_flow m =? 1); reflexivity.
 Qed.
 
-Lemma dispatch_all_meets : forall b ms st,
-  calls_of (fst (dispatch_all b st ms)) = fst (delivery_demands (in_force (rev b)) ms) /\
-  sends_of (fst (dispatch_all b st ms)) = snd (delivery_demands (in_force (rev b)) ms).
+Lemma delivery_demands_cons : forall regs m r,
+  delivery_demands regs (m :: r) =
+  (fst (fst (msg_demands regs m)) ++ fst (fst (delivery_demands (snd (msg_demands regs m)) r)),
+   snd (fst (msg_demands regs m)) ++ snd (fst (delivery_demands (snd (msg_demands regs m)) r)),
+   snd (delivery_demands (snd (msg_demands regs m)) r)).
 Proof.
-  induction ms as [|m r IH]; intros; [split; reflexivity|].
-  cbn [dispatch_all delivery_demands].
-  destruct (dispatch b st m) as [a st1] eqn:D.
-  destruct (dispatch_all b st1 r) as [a' st2] eqn:D'.
-  destruct (msg_demands (in_force (rev b)) m) as [c1 s1] eqn:M.
-  destruct (delivery_demands (in_force (rev b)) r) as [c2 s2] eqn:DD.
-  cbn [fst snd]. rewrite calls_of_app, sends_of_app.
-  pose proof (dispatch_meets_demands b st m) as [H1 H2]. rewrite D, M in H1, H2. cbn [fst snd] in H1, H2.
-  pose proof (IH st1) as [H3 H4]. rewrite D' in H3, H4. cbn [fst snd] in H3, H4.
-  rewrite H1, H2, H3, H4. split; reflexivity.
+  intros. cbn [delivery_demands]. destruct (msg_demands regs m) as [[c1 s1] regs1]. cbn [fst snd].
+  destruct (delivery_demands regs1 r) as [[c2 s2] regs2]. reflexivity.
 Qed.
 
-Lemma delivery_demands_cons : forall who m r,
-  delivery_demands who (m :: r) =
-  (fst (msg_demands who m) ++ fst (delivery_demands who r), snd (msg_demands who m) ++ snd (delivery_demands who r)).
-Proof. intros. cbn [delivery_demands]. destruct (msg_demands who m), (delivery_demands who r). reflexivity. Qed.
+Lemma dispatch_all_cons : forall b st m r,
+  dispatch_all b st (m :: r) =
+  (let d := dispatch b st m in let rest := dispatch_all (snd d) (snd (fst d)) r in
+   (fst (fst d) ++ fst (fst rest), snd (fst rest), snd rest)).
+Proof. intros. cbn [dispatch_all]. destruct (dispatch b st m) as [[a st1] b1]. cbn [fst snd]. destruct (dispatch_all b1 st1 r) as [[a' st2] b2]. reflexivity. Qed.
 
-Lemma ping_one_ack : forall b ms st, no_ack_handlers (in_force (rev b)) ->
-  count_acks (sends_of (fst (dispatch_all b st ms))) = count_pings ms.
+Lemma dispatch_all_meets : forall ms b st,
+  calls_of (fst (fst (dispatch_all b st ms))) = fst (fst (delivery_demands (rev b) ms)) /\
+  sends_of (fst (fst (dispatch_all b st ms))) = snd (fst (delivery_demands (rev b) ms)) /\
+  rev (snd (dispatch_all b st ms)) = snd (delivery_demands (rev b) ms) /\
+  snd (fst (dispatch_all b st ms)) = fold_left upd_state ms st.
 Proof.
-  intros b ms st H. rewrite (proj2 (dispatch_all_meets b ms st)).
-  induction ms as [|m r IH]; [reflexivity|].
-  rewrite delivery_demands_cons. cbn [snd]. rewrite count_acks_app, IH.
-  etransitivity; [apply f_equal2; [apply msg_demands_acks; exact H | reflexivity]|].
+  induction ms as [|m r IH]; intros; [cbn; auto|].
+  rewrite dispatch_all_cons, delivery_demands_cons. cbn zeta. cbn [fst snd fold_left].
+  pose proof (dispatch_meets_demands b st m) as (H1 & H2 & H3 & H4).
+  specialize (IH (snd (dispatch b st m)) (snd (fst (dispatch b st m)))). rewrite H3, H4 in IH.
+  destruct IH as (I1 & I2 & I3 & I4).
+  rewrite H4, calls_of_app, sends_of_app, H1, H2, I1, I2, I3, I4. auto.
+Qed.
+
+Lemma delivery_demands_acks : forall ms regs, count_acks (snd (fst (delivery_demands regs ms))) = count_pings ms.
+Proof.
+  induction ms as [|m r IH]; intros; [reflexivity|].
+  rewrite delivery_demands_cons. cbn [fst snd]. rewrite count_acks_app, IH, msg_demands_acks.
   unfold count_pings. cbn [filter]. destruct (m_flow m =? 1); reflexivity.
 Qed.
 
+(* a panel ping is answered with exactly one acknowledge, whatever the handlers do *)
+Lemma ping_one_ack : forall b ms st,
+  count_acks (sends_of (fst (fst (dispatch_all b st ms)))) = count_pings ms.
+Proof. intros. rewrite (proj1 (proj2 (dispatch_all_meets ms b st))). apply delivery_demands_acks. Qed.
+
 (* ------------------------------------------------------------------ state *)
-Lemma dispatch_all_state : forall b ms st, snd (dispatch_all b st ms) = fold_left upd_state ms st.
-Proof.
-  induction ms as [|m r IH]; intros; [reflexivity|].
-  cbn [dispatch_all fold_left]. unfold dispatch at 1.
-  destruct (dispatch_all b (upd_state st m) r) as [a' st2] eqn:D'. cbn [snd].
-  rewrite <- IH, D'. reflexivity.
-Qed.
+Lemma dispatch_all_state : forall b ms st, snd (fst (dispatch_all b st ms)) = fold_left upd_state ms st.
+Proof. intros. apply (dispatch_all_meets ms b st). Qed.
 
 Lemma keep_spec : forall new old, keep new old = match new with [] => old | v => v end.
 Proof. intros. destruct new; reflexivity. Qed.
@@ -305,13 +370,15 @@ Qed.
 Lemma initialised_mono_all : forall ms st, initialised st = true -> initialised (fold_left upd_state ms st) = true.
 Proof. induction ms; intros; [assumption|]. cbn. apply IHms, initialised_mono. assumption. Qed.
 
-Lemma connect_ok_window : forall b evs st,
+Lemma connect_ok_window : forall evs b st,
   connect_ok b st evs = initialised (fold_left upd_state (in_window evs) st).
 Proof.
   induction evs as [|[t [d|]] r IH]; intros.
   - cbn. apply orb_false_r.
   - cbn [connect_ok in_window]. destruct (t <? init_window).
-    + rewrite dispatch_all_state, IH, fold_left_app.
+    + pose proof (dispatch_all_state b d st) as DS.
+      destruct (dispatch_all b st d) as [[a st'] b']. cbn [fst snd] in DS. subst st'.
+      rewrite IH, fold_left_app.
       destruct (initialised st) eqn:I; [|reflexivity].
       cbn. symmetry. apply initialised_mono_all, initialised_mono_all. assumption.
     + cbn. apply orb_false_r.
